@@ -93,6 +93,35 @@ Example current_delivers_first_message :
     /\ lookup 1 (cstreams x) = Some c /\ c_lost c = [] /\ c_read c = [Got 7].
 Proof. eexists; eexists; split; [vm_compute; reflexivity|repeat split]. Qed.
 
+(* a reader blocked in ReadMessage while a message sits in the stream's queue would be a lost wake-up: it cannot
+   happen (several readers per stream included).  Every variant; on both sides; an end removed from the server's
+   table has been stopped, so nobody is blocked on it at all *)
+Theorem no_reader_waits_while_queued v x : reachable v x ->
+  (forall s c, lookup s (cstreams x) = Some c -> c_blocked c > 0 -> c_events c = []) /\
+  (forall s c, lookup s (sstreams x) = Some c -> s_blocked c > 0 -> s_events c = []) /\
+  (forall s c, In (s, c) (sgone x) -> s_blocked c > 0 -> s_events c = []).
+Proof.
+  intros [tr R]. pose proof (QInv_reach _ _ _ R) as Q. pose proof (BInv_reach _ _ _ R) as B.
+  split; [exact (q_c _ Q)|split; [exact (q_s _ Q)|]].
+  intros s c I K. destruct (b_gone _ B _ _ I) as [_ Z]. lia.
+Qed.
+
+(* one step: a message arriving at an end with a blocked reader (whose queue is then empty) goes straight to
+   one reader; the queue stays empty and the other readers stay blocked *)
+Theorem trigger_wakes_a_reader c m : c_blocked c > 0 -> c_events c = [] ->
+  c_blocked (c_trigger m c) = c_blocked c - 1 /\ c_read (c_trigger m c) = c_read c ++ [Got m] /\ c_events (c_trigger m c) = [].
+Proof.
+  intros B E. unfold c_trigger. rewrite E. destruct (c_blocked c); [lia|]. simpl. repeat split. lia.
+Qed.
+Theorem s_trigger_wakes_a_reader c m : s_blocked c > 0 -> s_events c = [] ->
+  s_blocked (s_trigger m c) = s_blocked c - 1 /\ s_read (s_trigger m c) = s_read c ++ [Got m] /\ s_events (s_trigger m c) = [].
+Proof.
+  intros B E. unfold s_trigger. rewrite E. destruct (s_blocked c); [lia|]. simpl. repeat split. lia.
+Qed.
+Print Assumptions no_reader_waits_while_queued.
+Print Assumptions trigger_wakes_a_reader.
+Print Assumptions s_trigger_wakes_a_reader.
+
 (* ---- C10 ---- *)
 (* no reader stays blocked on a closed stream end, on either side *)
 Theorem closed_unblocks x : reachable current x ->
